@@ -158,14 +158,6 @@ theorem syncNode_frame (cfg : Cfg) (f : Faults) (s : St) :
     (syncNode cfg f s).1.c.svcs = s.c.svcs ∧ (syncNode cfg f s).1.c.chks = s.c.chks := by
   unfold syncNode; cases f.node <;> exact ⟨rfl, rfl, rfl, rfl⟩
 
-/-- everything `GInv`, `liveSvc`, `liveChk` look at -/
-theorem GInv_congr {l l' : Local} {c c' : Cat} (h1 : l'.svcs = l.svcs) (h2 : l'.chks = l.chks)
-    (h3 : c'.svcs = c.svcs) (h4 : c'.chks = c.chks) (g : GInv T Rs Rc Ps Pc l c) : GInv T Rs Rc Ps Pc l' c' := by
-  obtain ⟨a, b, x⟩ := l; obtain ⟨a', b', x'⟩ := l'
-  obtain ⟨n, y, z⟩ := c; obtain ⟨n', y', z'⟩ := c'
-  simp only at h1 h2 h3 h4; subst h1 h2 h3 h4
-  exact ⟨g.lwf, g.cwf, g.nek, g.nrb, g.snd, g.tgt⟩
-
 theorem live_congr {l l' : Local} (h1 : l'.svcs = l.svcs) (h2 : l'.chks = l.chks) :
     (∀ i, liveSvc l' i = liveSvc l i) ∧ (∀ k, liveChk l' k = liveChk l k) := by
   refine ⟨fun i => ?_, fun k => ?_⟩
